@@ -21,30 +21,31 @@ package requestf
 //@   requires st != nil && validR(readBuf)
 //@   let src = readBuf.buf.src
 //@   let p0 = readBuf.buf.i
+//@   let d0 = readBuf.depth
 //@   let allocbudget = len(readBuf.buf.src)
 //@   witness src = readBuf.buf.src
 //@   witness i = readBuf.buf.i
-//@   modifies *st, readBuf.buf.i
+//@   modifies *st, readBuf.buf.i, readBuf.depth
 //@   allocates
 //@   opaque [C03] *
 //@   ensures [C05] readBuf.buf.i >= p0
-//@   let q1 = decIntP(src, p0, 1)
-//@   let q2 = decIntP(src, q1, 2)
-//@   let q3 = decIntP(src, q2, 3)
-//@   let q4 = decIntP(src, q3, 4)
-//@   let q5 = decStrP(src, q4, 5)
-//@   let ok1 = atHead(src, p0, 1) && decIntK(src, p0, 1, true, 2) == 0
-//@   let ok2 = ok1 && atHead(src, q1, 2) && decIntK(src, q1, 2, true, 1) == 0
-//@   let ok3 = ok2 && atHead(src, q2, 3) && decIntK(src, q2, 3, true, 4) == 0
-//@   let ok4 = ok3 && atHead(src, q3, 4) && decIntK(src, q3, 4, true, 4) == 0
-//@   let ok5 = ok4 && atHead(src, q4, 5) && decStrK(src, q4, 5, true) == 0
-//@   let ok6 = ok5 && atHead(src, q5, 6) && decStrK(src, q5, 6, true) == 0
-//@   ensures [C03] (ok1 && err == nil) ==> st.IVersion == decIntV(src, p0, 1)
-//@   ensures [C03] (ok2 && err == nil) ==> st.CPacketType == decIntV(src, q1, 2)
-//@   ensures [C03] (ok3 && err == nil) ==> st.IMessageType == decIntV(src, q2, 3)
-//@   ensures [C03] (ok4 && err == nil) ==> st.IRequestId == decIntV(src, q3, 4)
-//@   ensures [C03] (ok5 && err == nil) ==> st.SServantName == decStrV(src, q4, 5)
-//@   ensures [C03] (ok6 && err == nil) ==> st.SFuncName == decStrV(src, q5, 6)
+//@   let q1 = decIntP(src, p0, 1, d0)
+//@   let q2 = decIntP(src, q1, 2, d0)
+//@   let q3 = decIntP(src, q2, 3, d0)
+//@   let q4 = decIntP(src, q3, 4, d0)
+//@   let q5 = decStrP(src, q4, 5, d0)
+//@   let ok1 = atHead(src, p0, 1) && decIntK(src, p0, 1, true, 2, d0) == 0
+//@   let ok2 = ok1 && atHead(src, q1, 2) && decIntK(src, q1, 2, true, 1, d0) == 0
+//@   let ok3 = ok2 && atHead(src, q2, 3) && decIntK(src, q2, 3, true, 4, d0) == 0
+//@   let ok4 = ok3 && atHead(src, q3, 4) && decIntK(src, q3, 4, true, 4, d0) == 0
+//@   let ok5 = ok4 && atHead(src, q4, 5) && decStrK(src, q4, 5, true, d0) == 0
+//@   let ok6 = ok5 && atHead(src, q5, 6) && decStrK(src, q5, 6, true, d0) == 0
+//@   ensures [C03] (ok1 && err == nil) ==> st.IVersion == decIntV(src, p0, 1, d0)
+//@   ensures [C03] (ok2 && err == nil) ==> st.CPacketType == decIntV(src, q1, 2, d0)
+//@   ensures [C03] (ok3 && err == nil) ==> st.IMessageType == decIntV(src, q2, 3, d0)
+//@   ensures [C03] (ok4 && err == nil) ==> st.IRequestId == decIntV(src, q3, 4, d0)
+//@   ensures [C03] (ok5 && err == nil) ==> st.SServantName == decStrV(src, q4, 5, d0)
+//@   ensures [C03] (ok6 && err == nil) ==> st.SFuncName == decStrV(src, q5, 6, d0)
 //@   ensures [C05] validR(readBuf)
 //@   loop 0 invariant [C05] validR(readBuf) && readBuf.buf.i >= p0 && len(st.SBuffer) == length
 //@   loop 1 invariant [C05] validR(readBuf) && readBuf.buf.i >= p0 && st.Context != nil
@@ -55,7 +56,7 @@ package requestf
 //@   requires st != nil && validR(readBuf)
 //@   let p0 = readBuf.buf.i
 //@   let allocbudget = len(readBuf.buf.src)
-//@   modifies *st, readBuf.buf.i
+//@   modifies *st, readBuf.buf.i, readBuf.depth
 //@   allocates
 //@   ensures readBuf.buf.i >= p0
 //@   safety [C05]
@@ -72,27 +73,28 @@ package requestf
 //@   requires st != nil && validR(readBuf)
 //@   let src = readBuf.buf.src
 //@   let p0 = readBuf.buf.i
+//@   let d0 = readBuf.depth
 //@   let allocbudget = len(readBuf.buf.src)
 //@   witness src = readBuf.buf.src
 //@   witness i = readBuf.buf.i
-//@   modifies *st, readBuf.buf.i
+//@   modifies *st, readBuf.buf.i, readBuf.depth
 //@   allocates
 //@   opaque [C03] *
 //@   ensures [C05] readBuf.buf.i >= p0
-//@   let q1 = decIntP(src, p0, 1)
-//@   let q2 = decIntP(src, q1, 2)
-//@   let q3 = decIntP(src, q2, 3)
-//@   let q4 = decIntP(src, q3, 4)
-//@   let ok1 = atHead(src, p0, 1) && decIntK(src, p0, 1, true, 2) == 0
-//@   let ok2 = ok1 && atHead(src, q1, 2) && decIntK(src, q1, 2, true, 1) == 0
-//@   let ok3 = ok2 && atHead(src, q2, 3) && decIntK(src, q2, 3, true, 4) == 0
-//@   let ok4 = ok3 && atHead(src, q3, 4) && decIntK(src, q3, 4, true, 4) == 0
-//@   let ok5 = ok4 && atHead(src, q4, 5) && decIntK(src, q4, 5, true, 4) == 0
-//@   ensures [C03] (ok1 && err == nil) ==> st.IVersion == decIntV(src, p0, 1)
-//@   ensures [C03] (ok2 && err == nil) ==> st.CPacketType == decIntV(src, q1, 2)
-//@   ensures [C03] (ok3 && err == nil) ==> st.IRequestId == decIntV(src, q2, 3)
-//@   ensures [C03] (ok4 && err == nil) ==> st.IMessageType == decIntV(src, q3, 4)
-//@   ensures [C03] (ok5 && err == nil) ==> st.IRet == decIntV(src, q4, 5)
+//@   let q1 = decIntP(src, p0, 1, d0)
+//@   let q2 = decIntP(src, q1, 2, d0)
+//@   let q3 = decIntP(src, q2, 3, d0)
+//@   let q4 = decIntP(src, q3, 4, d0)
+//@   let ok1 = atHead(src, p0, 1) && decIntK(src, p0, 1, true, 2, d0) == 0
+//@   let ok2 = ok1 && atHead(src, q1, 2) && decIntK(src, q1, 2, true, 1, d0) == 0
+//@   let ok3 = ok2 && atHead(src, q2, 3) && decIntK(src, q2, 3, true, 4, d0) == 0
+//@   let ok4 = ok3 && atHead(src, q3, 4) && decIntK(src, q3, 4, true, 4, d0) == 0
+//@   let ok5 = ok4 && atHead(src, q4, 5) && decIntK(src, q4, 5, true, 4, d0) == 0
+//@   ensures [C03] (ok1 && err == nil) ==> st.IVersion == decIntV(src, p0, 1, d0)
+//@   ensures [C03] (ok2 && err == nil) ==> st.CPacketType == decIntV(src, q1, 2, d0)
+//@   ensures [C03] (ok3 && err == nil) ==> st.IRequestId == decIntV(src, q2, 3, d0)
+//@   ensures [C03] (ok4 && err == nil) ==> st.IMessageType == decIntV(src, q3, 4, d0)
+//@   ensures [C03] (ok5 && err == nil) ==> st.IRet == decIntV(src, q4, 5, d0)
 //@   ensures [C05] validR(readBuf)
 //@   loop 0 invariant [C05] validR(readBuf) && readBuf.buf.i >= p0 && len(st.SBuffer) == length
 //@   loop 1 invariant [C05] validR(readBuf) && readBuf.buf.i >= p0 && st.Status != nil
@@ -103,7 +105,7 @@ package requestf
 //@   requires st != nil && validR(readBuf)
 //@   let p0 = readBuf.buf.i
 //@   let allocbudget = len(readBuf.buf.src)
-//@   modifies *st, readBuf.buf.i
+//@   modifies *st, readBuf.buf.i, readBuf.depth
 //@   allocates
 //@   ensures readBuf.buf.i >= p0
 //@   safety [C05]
